@@ -537,6 +537,29 @@ func work(ctx *runner.Ctx) {
 		}
 		cases = append(cases, cs{A: m, Regime: "all", P: 2})
 	}
+	// 8. both variable-length kinds (data and string) at the write-buffer boundary and beyond, and every item kind
+	// straddling the end of the 64 KiB write buffer behind a data item that leaves 0..8 bytes free
+	for _, kind := range []string{"d", "s"} {
+		for _, n := range []int{65531, 65532, 65533, 65534, 65535, 65536, 65537, 2*65536 + 3, 1<<20 + 1} {
+			if kind == "d" && (n == 65535 || n == 65536 || n == 65537 || n == 65532) {
+				continue // section 4
+			}
+			if quick && kind == "d" && n < 65536 {
+				continue
+			}
+			cases = append(cases, cs{A: []Op{{K: kind, N: n}, {K: "w"}}, Regime: "all", P: 0, F: fb})
+		}
+	}
+	straddle := append(append([]Op{}, fixed...), Op{K: "s", N: 3}, Op{K: "z", N: 3}, Op{K: "d", N: 17}, Op{K: "s", N: 0})
+	for k := 0; k <= 8; k++ {
+		for i, it := range straddle {
+			if quick && (k+i)%2 != 0 {
+				continue
+			}
+			// data item: 4-byte length + payload fills the buffer up to k bytes before its end
+			cases = append(cases, cs{A: []Op{{K: "d", N: 65536 - 4 - k}, it, {K: "b"}}, Regime: "all", P: 0, F: fb})
+		}
+	}
 	// the long fixed sequence of the repository's own test shape
 	long := []Op{{K: "b"}, {K: "h"}, {K: "w"}, {K: "d", N: 17}, {K: "s", N: 3}, {K: "l"}, {K: "z", N: 3}, flush, {K: "d", N: 65537}, {K: "w"}, {K: "l"}}
 	cases = append(cases, cs{A: long, Regime: "dev", P: 0, E: 2, F: fb}, cs{A: long, B: long, Regime: "all", P: 0, F: fb})
